@@ -286,7 +286,8 @@ _cache = {}
 
 def inlined(prog, f, depth=2, skip=()):
     """a Func-like copy of f with helpers inlined (same key, mod, cls; `.node` replaced); f itself when nothing was inlined"""
-    k = (id(prog), f.key, depth, tuple(sorted(skip)))
+    _cache = prog.__dict__.setdefault('_inline_cache', {})     # per program instance (ids of dead programs are reused)
+    k = (f.key, id(f.node), depth, tuple(sorted(skip)))
     if k in _cache:
         return _cache[k]
     inl = Inliner(prog, f, depth, skip)
